@@ -123,6 +123,8 @@ TRecValid(ln) ==
   /\ ln.b[3] = Len(ln.b) - 5 /\ ln.b[3] >= 1
   /\ ln.b[4] = NibSum(SubSeq(ln.b, 1, 3)) % 256
   /\ ln.b[Len(ln.b)] = NibSum(SubSeq(ln.b, 5, Len(ln.b) - 1)) % 256
+\* termination block /AAAA00HH (transfer address, count 0): p2hex does not write one; accepted as the last line
+TTermValid(ln) == ln.k = "T" /\ IsByteSeq(ln.b) /\ Len(ln.b) = 4 /\ ln.b[3] = 0 /\ ln.b[4] = NibSum(SubSeq(ln.b, 1, 3)) % 256
 TAddr(ln) == ln.b[1] * 256 + ln.b[2]
 TData(ln) == SubSeq(ln.b, 5, Len(ln.b) - 1)
 
@@ -160,7 +162,7 @@ LineValid(fmt, ln, o, isLast) ==
        [] fmt \in {"INTEL", "INTEL16", "INTEL32"} ->
             IF isLast THEN IIsEof(ln, o.i) ELSE IRecValid(ln) /\ IType(ln) \in IntelTypes(fmt) \ {1}
        [] fmt = "MOS" -> MRecValid(ln)
-       [] fmt = "TEK" -> TRecValid(ln)
+       [] fmt = "TEK" -> IF isLast /\ Len(ln.b) = 4 THEN TTermValid(ln) ELSE TRecValid(ln)
        [] fmt = "ATMEL" -> ARecValid(ln, o.avrlen)
        [] fmt = "C" -> (ln.k = "CSYN" => ln.ok)
        [] fmt = "DSK" -> DRecValid(ln)
@@ -171,7 +173,7 @@ LineValid(fmt, ln, o, isLast) ==
 LineShape(fmt, ln, o) ==
   /\ ln.k \in KindOf(fmt)
   /\ CASE fmt = "MOTO" -> SRecShape(ln) [] fmt \in {"INTEL", "INTEL16", "INTEL32"} -> IRecShape(ln)
-       [] fmt = "MOS" -> MRecShape(ln) [] fmt = "TEK" -> TRecShape(ln) [] fmt = "ATMEL" -> ARecValid(ln, o.avrlen)
+       [] fmt = "MOS" -> MRecShape(ln) [] fmt = "TEK" -> (TRecShape(ln) \/ TTermValid(ln)) [] fmt = "ATMEL" -> ARecValid(ln, o.avrlen)
        [] fmt = "DSK" -> DRecValid(ln) [] fmt = "MICO8" -> XRecValid(ln) [] OTHER -> TRUE
 
 BadLines(fmt, lines, o) == {i \in 1..Len(lines) : ~LineValid(fmt, lines[i], o, i = Len(lines))}
@@ -212,7 +214,7 @@ Runs(fmt, lines, mul) ==
          LET bs == IntelBases(lines) IN
          UNION {IntelRuns(lines[i], bs[i]) : i \in {j \in 1..N : lines[j].k = "I" /\ Len(lines[j].b) >= 6 /\ lines[j].b[4] = 0}}
     [] fmt = "MOS" -> {Run(MAddr(lines[i]) * mul, MData(lines[i])) : i \in {j \in 1..N : lines[j].k = "M" /\ MCount(lines[j]) > 0}}
-    [] fmt = "TEK" -> {Run(TAddr(lines[i]) * mul, TData(lines[i])) : i \in {j \in 1..N : lines[j].k = "T"}}
+    [] fmt = "TEK" -> {Run(TAddr(lines[i]) * mul, TData(lines[i])) : i \in {j \in 1..N : lines[j].k = "T" /\ Len(lines[j].b) >= 6}}
     [] fmt = "ATMEL" -> {Run(AAddr(lines[i]) * 2, <<lines[i].b[2], lines[i].b[1]>>) : i \in {j \in 1..N : lines[j].k = "A"}}
     [] fmt = "C" -> UNION {{Run(MulSat(st, mul), a) : st \in CDef(lines, "start", blk), a \in CArr(lines, blk)} : blk \in CBlocks(lines)}
     [] fmt = "DSK" -> {Run(BE(lines[i].a) * 2, [j \in 1..(2 * Len(lines[i].w)) |-> lines[i].w[(j + 1) \div 2][IF j % 2 = 1 THEN 3 ELSE 2]])
@@ -401,7 +403,11 @@ Verdict(c, lines) ==
       \* first differing key: <<key, byte decoded, byte selected (-1: nothing selected there)>>; ncovered vs nsel
       firstdiff |-> first,
       ncovered |-> IF shaped THEN Cardinality(UNION {r.a..(r.a + Len(r.d) - 1) : r \in runs}) ELSE -1,
-      nsel |-> SelCount(c), maxline |-> MaxLineData(fmt, lines), nlines |-> Len(lines)]
+      nsel |-> SelCount(c), maxline |-> MaxLineData(fmt, lines), nlines |-> Len(lines),
+      \* observations that are not part of the verdict
+      tek_term |-> fmt = "TEK" => (lines # <<>> /\ TTermValid(lines[Len(lines)])),
+      c_end |-> fmt = "C" => \A blk \in CBlocks(lines) : \A st \in CDef(lines, "start", blk) : \A n \in CDef(lines, "len", blk) :
+                                \A e \in CDef(lines, "end", blk) : e = st + n \div TheGran(c) - 1]
 
 \* ================================================================================================
 \* Part 4: operational model of p2hex.c (one source file)
@@ -518,8 +524,10 @@ Prologue(c, g, st, D) ==
 \* bytes of the record as they are written: MultiMode 1 reverses every unit (WSwap/DSwap), 2/3 keep one lane
 BufOf(c, g, n) ==
   LET r == c.recs[g.k]  G == g.gran  raw == SubSeq(r.data, g.pos + 1, g.pos + n)
-      sw == IF c.o.m = 1 /\ G \in {2, 4} THEN [i \in 1..n |-> raw[((i - 1) \div G) * G + (G - 1 - ((i - 1) % G)) + 1]] ELSE raw
-  IN IF c.o.m < 2 THEN sw ELSE SelectSeq([i \in 1..n |-> IF (i - 1) % G = c.o.m - 2 THEN sw[i] ELSE -1], LAMBDA x : x >= 0)
+      \* (a line that ends inside a unit makes the real DSwap() overrun: modelled as the marker -1, never a byte)
+      swi(i) == ((i - 1) \div G) * G + (G - 1 - ((i - 1) % G)) + 1
+      sw == IF c.o.m = 1 /\ G \in {2, 4} THEN [i \in 1..n |-> IF swi(i) <= n THEN raw[swi(i)] ELSE -1] ELSE raw
+  IN IF c.o.m < 2 THEN sw ELSE SelectSeq([i \in 1..n |-> IF (i - 1) % G = c.o.m - 2 THEN sw[i] ELSE -2], LAMBDA x : x >= -1)
 
 LineStep(c, g0, st0, D) ==
   LET fmt == g0.fmt  G == g0.gran  LL == GrpLL(c.o, G, fmt, g0.mt, D)
